@@ -66,10 +66,10 @@ BumpCtr(tree, p) == [tree EXCEPT ![p].x = @ + 1]
 RemoveSubtree(tree, q) ==
     LET keep == {r \in DOMAIN tree : ~HasPrefix(r, q)} IN [r \in keep |-> tree[r]]
 
-\* results of seek(k): <<"seek", exists, cur, drain>> where cur is <<>> or <<entry>>
-SeekResults(tree, p, k) ==
-    LET lst == Listing(tree, p)
-        n   == Len(lst)
+\* results of seek(k) on a bucket whose listing is lst:
+\* <<"seek", exists, cur, drain>> where cur is <<>> or <<entry>>
+SeekResultsL(lst, k) ==
+    LET n   == Len(lst)
         at(i) == <<"seek", lst[i][1] = k, <<lst[i]>>, SubSeq(lst, i, n)>>
         idx == {i \in 1..n : lst[i][1] = k}
         below == {i \in 1..n : lst[i][1] < k}
@@ -78,6 +78,20 @@ SeekResults(tree, p, k) ==
         ELSE IF idx # {} THEN {at(MinOf(idx))}
         ELSE {at(MaxOf(below)) : x \in IF below = {} THEN {} ELSE {1}}
              \cup {at(MinOf(above)) : x \in IF above = {} THEN {} ELSE {1}}
+SeekResults(tree, p, k) == SeekResultsL(Listing(tree, p), k)
+
+\* every call that only reads the listing of its bucket, as a function of that listing
+ListReads == {"scan", "buckets", "kvpairs", "range", "rangeb", "rangekv", "seek", "reseek", "again"}
+ReadRes(lst, o) ==
+    CASE o.c = "scan"    -> {<<"list", lst>>}
+      [] o.c = "again"   -> {<<"list", lst>>}   \* drained, then next() three more times
+      [] o.c = "buckets" -> {<<"list", FilterKind(lst, "b")>>}
+      [] o.c = "kvpairs" -> {<<"list", FilterKind(lst, "v")>>}
+      [] o.c = "range"   -> {<<"list", RangeOf(lst, o.lk, o.lo, o.hk, o.hi)>>}
+      [] o.c = "rangeb"  -> {<<"list", FilterKind(RangeOf(lst, o.lk, o.lo, o.hk, o.hi), "b")>>}
+      [] o.c = "rangekv" -> {<<"list", FilterKind(RangeOf(lst, o.lk, o.lo, o.hk, o.hi), "v")>>}
+      [] o.c = "seek"    -> SeekResultsL(lst, o.k)
+      [] o.c = "reseek"  -> SeekResultsL(lst, o.k)  \* same cursor: seek(lo), hi x next(), seek(k)
 
 (***************************************************************************)
 (* op: [c, p, k, v, lk, lo, hk, hi]                                         *)
@@ -138,17 +152,6 @@ Do(tree, w, o) ==
                 ELSE IF IsKV(tree, q) THEN Same(tree, Err("IncompatibleValue"))
                 ELSE Same(tree, Err("BucketMissing"))
          [] o.c = "nextint" -> Same(tree, <<"int", tree[p].x>>)
-         [] o.c = "scan"    -> Same(tree, <<"list", Listing(tree, p)>>)
-         [] o.c = "buckets" -> Same(tree, <<"list", FilterKind(Listing(tree, p), "b")>>)
-         [] o.c = "kvpairs" -> Same(tree, <<"list", FilterKind(Listing(tree, p), "v")>>)
-         [] o.c = "range"   ->
-                Same(tree, <<"list", RangeOf(Listing(tree, p), o.lk, o.lo, o.hk, o.hi)>>)
-         [] o.c = "rangeb"  ->   \* range(..).to_buckets()
-                Same(tree, <<"list", FilterKind(RangeOf(Listing(tree, p), o.lk, o.lo, o.hk, o.hi), "b")>>)
-         [] o.c = "rangekv" ->   \* range(..).to_kv_pairs()
-                Same(tree, <<"list", FilterKind(RangeOf(Listing(tree, p), o.lk, o.lo, o.hk, o.hi), "v")>>)
-         [] o.c = "seek"    -> [res |-> SeekResults(tree, p, o.k), tree |-> tree]
-         [] o.c = "again"   ->   \* cursor drained, then next() three more times
-                Same(tree, <<"list", Listing(tree, p)>>)
+         [] o.c \in ListReads -> [res |-> ReadRes(Listing(tree, p), o), tree |-> tree]
          [] OTHER -> Same(tree, <<"unsupported">>)
 =============================================================================
